@@ -30,6 +30,8 @@ def gen_scenario(rng, big=False):
             lines.append("t%d nested t%d send %d" % (tid, h, tag)); tag += 1; tid += 1
     if not any(" send " in l for l in lines):
         lines.insert(0, "t0 send %d" % tag)
+    if rng.random() < 0.4:
+        lines.insert(0, "setup default")      # built through `Default`, as the exfiltrators build theirs
     lines.append("spurious %d" % rng.choice([0, 30, 100, 250]))
     lines.append("seed %d" % rng.randint(1, 2**31))
     lines.append("maxsteps 3000")
